@@ -169,9 +169,10 @@ static ares_status_t parse_sort(ares_buf_t *buf, struct apattern *pat)
     }
 
     if (ares_str_isnum(maskstr)) {
-      /* Numeric mask */
-      int mask = atoi(maskstr);
-      if (mask < 0 || mask > 128) {
+      /* Numeric mask.  Up to 15 digits fit maskstr: convert without
+       * truncating to int, so that 2^32 + 8 is not taken for 8 */
+      unsigned long mask = strtoul(maskstr, NULL, 10);
+      if (mask > 128) {
         return ARES_EBADSTR;
       }
       if (pat->addr.family == AF_INET && mask > 32) {
